@@ -3,13 +3,13 @@ CONSTANTS
   SpuriousPass = FALSE
   AllSchedules = FALSE
   PermuteModules = FALSE
-  NB0 = {0, 1, 2}
+  NB0 = {0, 1, 2, 3}
   Variants = {"none", "same", "ext", "extm0", "emptyblk", "trunc", "swap", "rename", "recv", "ptype", "pcount", "ret", "cc", "argname", "vis", "doc"}
   WithB1 = {FALSE, TRUE}
   B1Vft = {FALSE, TRUE}
   Clash = {"no", "derived"}
   DDs = {"none", "plain", "diamond"}
-  DDVft = {FALSE, TRUE}
+  DDVft = {"no", "yes", "flat"}
   Ptrs = {4, 8}
   Lead = {FALSE, TRUE}
   EmptyBlocks = {FALSE, TRUE}
